@@ -352,3 +352,17 @@ def _combined_grad(eng, st, args, kwargs):
     bv = T.tv(eng, st, V(T.KRef('Tensor'), z3.If(bg.term == 0, wg.term, bg.term)))
     f = T.mf('combined', z3.IntSort(), T.M, T.LS, z3.BoolSort(), T.M, T.M)
     return V(T.KMat, f(eng.class_of(st, h), wv, wsh, b.term != 0, z3.If(b.term != 0, bv, wv)))
+
+
+@spec('is_fresh')
+def _is_fresh(eng, st, args, kwargs):
+    """The object was allocated during this call."""
+    (x,) = args
+    return BoolV(x.term >= eng._spec_old.nxt)
+
+
+@spec('nonneg')
+def _nonneg(eng, st, args, kwargs):
+    from . import theory as TH
+    _, syms = TH.groups()
+    return BoolV(syms['nonneg'](_as_mat(eng, st, args[0])))
